@@ -372,6 +372,9 @@ func nfEBNF(x *ebnf.Expression) string {
 }
 
 func c14Child(c *mon.Child) {
+	if c.Batch == 0 {
+		c14Static(c)
+	}
 	for gi, h := range gram.Registry {
 		key := h.ID
 		if !c.Want(key) {
